@@ -15,7 +15,7 @@ while i < len(a):
     elif a[i] == "--tier": tier = a[i+1]; i += 2
     else: i += 1
 subprocess.run(["cargo", "build", "--offline", "--quiet"], cwd=ROOT + "/sim", check=True, stderr=subprocess.DEVNULL)  # never sweep a stale binary
-env = dict(os.environ); env["LD_PRELOAD"] = ROOT + "/shim/libdetrand.so"; env["LANCE_PROCESS_IO_THREADS_LIMIT"] = "0"; env["LANCE_CPU_THREADS"] = "1"
+env = dict(os.environ); env["LD_PRELOAD"] = ROOT + "/shim/libdetrand.so"; env["LANCE_PROCESS_IO_THREADS_LIMIT"] = "0"; env["LANCE_CPU_THREADS"] = "1"; env["RAYON_NUM_THREADS"] = "1"
 def run(seed):
     r = subprocess.run(["setarch", "-R", ROOT + "/target/debug/lancesim", "run", "--engine", engine, "--prop", prop, "--seed", str(seed), "--tier", tier] + opts, env=env, capture_output=True, text=True)
     try: return json.loads(r.stdout.strip().splitlines()[-1])
